@@ -431,6 +431,10 @@ class Calls(Interp):
             return self.builtin_call(f.name, args, kwargs, node, star, dstar)
         if isinstance(f, SpecFn):
             return self.spec_call(f.name, args, kwargs, node)
+        if isinstance(f, PartialV):
+            kw = dict(f.kwargs)
+            kw.update(kwargs)
+            return self.call_value(f.func, f.args + list(args), kw, node, star, dstar)
         if isinstance(f, MethodCallerV):
             target = args[0]
             m = self.get_attr(target, f.name, node)
@@ -455,6 +459,8 @@ class Calls(Interp):
                 if m is not None:
                     return self.call_function(FuncV(m, k.module, k), [f] + list(args), kwargs, node, star, dstar)
             self.unsupported(node, "call of value with type %r" % (f.ty,))
+        if isinstance(f, ExtV) and f.dotted == "functools.partial":
+            return self.bi_partial(args, kwargs, node)
         if isinstance(f, ExtV):
             c = self.reg.contracts.get("lib:" + f.dotted)
             if c is not None:
@@ -473,7 +479,7 @@ class Calls(Interp):
                 c = None
         if c is not None and key in self.reg.inline_fresh and args and self.is_fresh(args[0]):
             c = None       # receiver built on this path: execute the real body on it
-        if c is not None and key in self.reg.inline_closure_args and any(isinstance(a, FuncV) for a in args):
+        if c is not None and key in self.reg.inline_closure_args and any(isinstance(a, (FuncV, BoundV, PartialV)) for a in list(args) + list(kwargs.values())):
             c = None       # a local closure is passed: execute the real body (the contract speaks about abstract callbacks)
         if c is not None and not c.inline:
             recv = None
@@ -694,8 +700,28 @@ class Calls(Interp):
             kw = z3.Store(kw, so.strv(k), self.to_term(v, node))
         return seq, kw
 
+    _MODELS = {}
+
+    def run_model(self, c, recv, args, kwargs, node, star, dstar):
+        """execute the assumed operational model of a library method/function (trusted text in the spec) as code"""
+        fn = self._MODELS.get(c.target)
+        if fn is None:
+            import textwrap
+            fn = ast.parse(textwrap.dedent(c.model)).body[0]
+            self._MODELS[c.target] = fn
+        f = FuncV(fn, self.cur_module if self.cur_module is not None else (self.frame.func.module if self.st.frames else None),
+                  None, None, "model:" + c.target)
+        saved = self.spec_mode
+        self.spec_mode = 0
+        try:
+            return self.inline_call(f, ([recv] if recv is not None else []) + list(args), kwargs, node, star, dstar, None)
+        finally:
+            self.spec_mode = saved
+
     def apply_contract(self, c, recv, args, kwargs, node, star=None, dstar=None, mname=None, func=None):
         self.used_contracts.add(c.target)
+        if c.model is not None:
+            return self.run_model(c, recv, args, kwargs, node, star, dstar)
         env = self.contract_env(c, recv, args, kwargs, node, star, dstar, func)
         for pn, ptag in c.params.items():
             pv = env.get(pn)
@@ -1190,6 +1216,29 @@ class Calls(Interp):
 
     def bi_print(self, args, kwargs, node):
         return SV(Val.none, "none")
+
+    def bi_partial(self, args, kwargs, node):
+        return PartialV(args[0], args[1:], kwargs)
+
+    def bi_ghost_new(self, args, kwargs, node):
+        """ghost_new('Shape', field=value, ...): a new abstract object (used by library models)"""
+        shape = self.const_str(args[0], node)
+        obj = self.alloc("object", shape)
+        from .verify import shape_kind
+        self.assume(shape_kind(self.refof(obj)) == self.shape_id(shape))
+        for k, v in kwargs.items():
+            self.set_field(self.refof(obj), k, self.to_term(v, node))
+        return obj
+
+    def bi_is_shape(self, args, kwargs, node):
+        v = args[0]
+        shape = self.const_str(args[1], node)
+        if not isinstance(v, SV):
+            return BoolSV(False)
+        if parse_tag(v.ty)[0] == shape:
+            return BoolSV(True)
+        from .verify import shape_kind
+        return BoolSV(z3.And(Val.is_ref(v.term), shape_kind(Val.r(v.term)) == self.shape_id(shape)))
 
     def bi_iter(self, args, kwargs, node):
         c = self.reg.contracts.get("lib:iter")
@@ -1990,6 +2039,9 @@ class Calls(Interp):
 
     def sp_asstr(self, args, kwargs, node):
         return SV(self.to_term(args[0], node), "str")
+
+    def sp_is_shape_(self, args, kwargs, node):
+        return self.bi_is_shape(args, kwargs, node)
 
     def sp_astype(self, args, kwargs, node):
         return SV(self.to_term(args[0], node), self.const_str(args[1], node))
